@@ -276,6 +276,15 @@ Theorem C16_wrappers_touch :
 Proof. vm_compute. repeat split; reflexivity. Qed.
 Print Assumptions C16_wrappers_touch.
 
+(* the model treats every converter as a FUNCTION of its arguments.  Regenerated from the source: the wrappers, the
+   converter functions, get_dtype and the module-level helpers they call read no module-level name that could
+   carry something from one call to the next (only locals, builtins, imported names, called module functions and
+   module constants bound once to an immutable literal), declare no global, keep no function attribute and
+   have no mutable default argument *)
+Theorem C16_converters_stateless : src_module_state = [].
+Proof. reflexivity. Qed.
+Print Assumptions C16_converters_stateless.
+
 (* calls and emptying the image never change the converter settings; a setter changes only its own attribute *)
 Theorem C16_history_settings :
   forall (ops : list adc_op) (s : hstate),
